@@ -40,6 +40,8 @@ def label_to_op(lab):
         return {"op": "CallGen", "e": args[0], "g": args[1]}
     if name in ("FitObj", "CloneFit"):
         return {"op": name, "e": args[0], "o": args[1]}
+    if name == "SwitchBackend":
+        return {"op": "SwitchBackend", "b": args[0]}
     raise ValueError(lab)
 
 
@@ -47,7 +49,9 @@ def random_history(rng, length, with_obj=False):
     ops = []
     for _ in range(length):
         r = rng.random()
-        if with_obj and rng.random() < 0.3:
+        if rng.random() < 0.06:
+            ops.append({"op": "SwitchBackend"})       # tenalg.set_backend(the other one): target filled in per trace
+        elif with_obj and rng.random() < 0.3:
             ops.append({"op": rng.choice(["FitObj", "FitObj", "CloneFit"]), "e": "rand", "o": "o1"})
         elif r < 0.15:
             ops.append({"op": "Perturb"})
@@ -102,6 +106,31 @@ def cache_histories():
             [r1, a1] + churn("alt") + [a1, r1] + churn("rand") + [r1, a1]]
 
 
+def det_histories(rng):
+    """histories for the routines WITHOUT random choices (tensor algebra, functions on factorised tensors): the call
+    repeated on the same argument objects, across uses of the global stream and across tenalg.set_backend away and back"""
+    d, sw, r1 = {"op": "CallNone", "e": "det"}, {"op": "SwitchBackend"}, {"op": "CallInt", "e": "rand", "s": 1}
+    hs = [[d, {"op": "Perturb"}, d, sw, d, d, sw, d, r1, d],
+          [d, d, {"op": "Reseed", "s": 1}, d, sw, d, {"op": "CallNone", "e": "rand"}, sw, d]]
+    for _ in range(2):
+        h = []
+        for _ in range(rng.randint(6, 10)):
+            h.append(rng.choice([d, d, d, sw, {"op": "Perturb"}, r1, {"op": "CallGen", "e": "rand", "g": "g1"}]))
+        hs.append(h)
+    return hs
+
+
+def fill_switches(ops, start):
+    """give every SwitchBackend its target: the implementation that is not selected at that point"""
+    cur, out = start, []
+    for op in ops:
+        if op["op"] == "SwitchBackend":
+            cur = "einsum" if cur == "core" else "core"
+            op = dict(op, b=cur)
+        out.append(op)
+    return out
+
+
 def complex_history():
     """the entry and its COMPLEX twin (a complex tensor of the same shape built from the same arguments), same seed"""
     r1, a1 = {"op": "CallInt", "e": "rand", "s": 1}, {"op": "CallInt", "e": "alt", "s": 1}
@@ -127,6 +156,18 @@ def build_cases(chk, walks, thorough, only=None, obj_walks=None):
     for ek in keys:
         slow = reg[ek]["slow"]
         isobj = "obj" in reg[ek] and obj_walks is not None
+        detonly = reg[ek].get("detonly", False)
+        if detonly:
+            if obj_walks is None:
+                continue
+            for hk, h in enumerate(det_histories(rng)):
+                start = ["core", "einsum"][hk % 2]
+                tr = "e%03d/d%03d" % (index[ek], hk)
+                cases.append({"id": "C16/" + tr, "tr": tr, "entry": ek, "fn": reg[ek]["fn"], "opt": reg[ek]["opt"],
+                              "ops": fill_switches(h, start), "tenalg": start, "seeds": real_seeds(rng), "genseed": GENSEED,
+                              "objseed": OBJSEED, "start": rng.randrange(0, 2**32), "flavour": rng.randrange(0, 4),
+                              "altkind": "float32", "prefit": "none", "seedform": "int", "genform": "RandomState"})
+            continue
         hist = [("w%03d" % k, w) for k, w in enumerate(obj_walks if isobj else walks)]
         if slow and not thorough:
             hist = hist[::4]
@@ -145,8 +186,10 @@ def build_cases(chk, walks, thorough, only=None, obj_walks=None):
                 # the class offers no get_params(): a "clone" cannot be built, re-fit the object instead (FitObj is
                 # enabled wherever CloneFit is and has the same effect in the model)
                 ops = [dict(op, op="FitObj") if op["op"] == "CloneFit" else op for op in ops]
-            tr = "e%02d/%s" % (index[ek], hid)     # short ids: TLC wraps long PrintT tuples over several lines
-            cases.append({"id": "C16/" + tr, "tr": tr, "entry": ek, "fn": reg[ek]["fn"], "opt": reg[ek]["opt"], "ops": ops,
+            tenalg_start = rng.choice(["core", "core", "einsum"])        # the tensor-algebra implementation selected at trace start
+            ops = fill_switches(ops, tenalg_start)
+            tr = "e%03d/%s" % (index[ek], hid)     # short ids: TLC wraps long PrintT tuples over several lines
+            cases.append({"id": "C16/" + tr, "tr": tr, "entry": ek, "fn": reg[ek]["fn"], "opt": reg[ek]["opt"], "ops": ops, "tenalg": tenalg_start,
                           "seeds": real_seeds(rng, oor), "genseed": GENSEED, "objseed": OBJSEED, "start": rng.randrange(0, 2**32),
                           "flavour": rng.randrange(0, 4),
                           # what the "alt" entry of this trace is: the routine on the float32 / on a complex twin of the arguments
@@ -160,7 +203,7 @@ def build_cases(chk, walks, thorough, only=None, obj_walks=None):
 
 
 INT_FIELDS = ("s", "res", "glob", "inp")
-STR_FIELDS = ("id", "tr", "ev", "entry", "e", "g", "o", "out")
+STR_FIELDS = ("id", "tr", "ev", "entry", "e", "g", "o", "b", "out")
 
 
 def well_typed(e):
@@ -243,6 +286,7 @@ def run(chk, opts):
     f_wit = {v: pool.submit(tlc.run, "RngStreamsMC", "RngStreamsMC_%s.cfg" % v, workers=2, timeout=900, extra=["-continue"])
              for v in ("asfound", "leak", "witness", "objstream")}
     f_design3 = pool.submit(tlc.run, "RngStreamsMC", "RngStreamsMC_quick3.cfg", workers=2, timeout=900)   # 3 entry classes
+    f_designb = pool.submit(tlc.run, "RngStreamsMC", "RngStreamsMC_quick_backends.cfg", workers=2, coverage=True, timeout=900)  # SwitchBackend
     objcfg = "RngStreamsMC_thorough_obj.cfg" if thorough else "RngStreamsMC_quick_obj.cfg"
     f_designobj = pool.submit(tlc.run, "RngStreamsMC", objcfg, workers=NCPU if thorough else 4, coverage=True, timeout=3000)
     # 2. spec -> code: transition cover of the labelled state graph + random histories
@@ -308,6 +352,14 @@ def run(chk, opts):
     chk.notes["design_run_three_entry_classes"] = r3.summary()
     if not r3.ok:
         chk.machinery.append("design spec RngStreamsMC/RngStreamsMC_quick3.cfg does not satisfy its own properties: %s" % (r3.violated or r3.summary()))
+    rb = f_designb.result()
+    chk.states += rb.distinct
+    chk.transitions += rb.generated
+    chk.notes["design_run_two_tenalg_backends"] = rb.summary()
+    if "SwitchBackend" in rb.coverage:
+        chk.actions["RngStreamsMC.SwitchBackend"] = rb.coverage["SwitchBackend"]
+    if not rb.ok or rb.coverage.get("SwitchBackend", (0, 0))[1] == 0:
+        chk.machinery.append("design spec RngStreamsMC/RngStreamsMC_quick_backends.cfg: %s (SwitchBackend taken %s)" % (rb.violated or rb.summary(), rb.coverage.get("SwitchBackend")))
     w = f_wit["objstream"].result()
     chk.states += w.distinct
     chk.transitions += w.generated
@@ -342,7 +394,7 @@ def run(chk, opts):
     w = f_wit["witness"].result()
     chk.states += w.distinct
     chk.transitions += w.generated
-    if not {"NoWitnessInt", "NoWitnessTwins", "NoWitnessObj"} <= set(w.violated):
+    if not {"NoWitnessInt", "NoWitnessTwins", "NoWitnessObj", "NoWitnessSwitch"} <= set(w.violated):
         chk.machinery.append("non-vacuity: witness histories not found: %s" % sorted(set(w.violated)))
     chk.notes["witness_histories_found"] = sorted(set(w.violated))
     pool.shutdown()
@@ -353,10 +405,10 @@ def run(chk, opts):
     nent = len({c["entry"] for c in cases})
     chk.rule = ("every edge of the labelled state graph of RngStreams (%d states, %d transitions, <=%d ops; %d covering walks) plus 2 memo histories (entry and its float32 twin, same seed, both orders, separated by 10 other seeds) and "
                 "%d random histories per entry point (seed %d; 12 seeds, ~10%% of the traces with an out-of-range integer seed, ~15%% with NumPy integer seeds), each replayed on each of %d seed-accepting entry point variants "
-                "(%d public functions/classes) with per-trace random real seeds; class-type entries (%d variants) additionally keep ONE estimator object per trace, constructed with the integer seed, that is re-fitted (FitObj) and cloned from get_params() (CloneFit) along the walks of the graph with those actions (%d transitions); a case = one trace; distinct = distinct (entry, op, "
+                "(%d public functions/classes) with per-trace random real seeds; class-type entries (%d variants) additionally keep ONE estimator object per trace, constructed with the integer seed, that is re-fitted (FitObj) and cloned from get_params() (CloneFit) along the walks of the graph with those actions (%d transitions); every trace starts under tensorly.tenalg 'core' or 'einsum' and random histories switch it (SwitchBackend); %d routines without random choices (tensor algebra, factorised-tensor functions, option forms) are replayed on their own histories (repeated unseeded calls on the same argument objects across stream use and backend switches); a case = one trace; distinct = distinct (entry, op, "
                 "seeding) steps observed" % (nstates, nedges, 4 if thorough else 3, len(walks), 120 if thorough else 6, chk.seed,
                                              nent, len({c["fn"] for c in cases}),
-                                             len({c["entry"] for c in cases if any(o["op"] in ("FitObj", "CloneFit") for o in c["ops"])}), gnote2["edges"]))
+                                             len({c["entry"] for c in cases if any(o["op"] in ("FitObj", "CloneFit") for o in c["ops"])}), gnote2["edges"], len({c["entry"] for c in cases if "/d0" in c["tr"]})))
     for e in events:
         if "ev" in e and e["ev"] != "Reset":
             chk.distinct.add((e["entry"], e["ev"], e["e"], e["s"], e["g"], e["o"]))
